@@ -488,6 +488,33 @@ def build_fn(block, orig, canary=False, mutant=None):
                 else:
                     ins.append((stmt_end(body, bm, pos), 0, txt))
                 continue
+            mm = re.match(r'scope-end-of\s+/((?:[^/\\]|\\.)*)/\s*(\d+)?$', where)
+            if mm:
+                # before the closing brace of the innermost block that contains the J-th match (e.g. the scope of a lock guard)
+                rx = mm.group(1).replace('\\/', '/')
+                j = int(mm.group(2) or 1)
+                hits = [h for h in re.finditer(rx, body) if bm[h.start()]]
+                if len(hits) < j:
+                    raise GenError('fn %s: anchor /%s/ #%d not found' % (block.name, rx, j))
+                pos = hits[j - 1].start()
+                d = 0
+                k = pos - 1
+                ob = None
+                while k >= 0:
+                    if bm[k]:
+                        c = body[k]
+                        if c == '}':
+                            d += 1
+                        elif c == '{':
+                            if d == 0:
+                                ob = k
+                                break
+                            d -= 1
+                    k -= 1
+                if ob is None:
+                    raise GenError('fn %s: no enclosing block for anchor /%s/' % (block.name, rx))
+                ins.append((match_close(body, bm, ob), 0, txt))
+                continue
             raise GenError('fn %s: bad "at" position: %s' % (block.name, where))
         if canary and not block.nocanary:
             ins.append((1, 0, '\nproof { assert(false); } /*@CANARY %s prologue@*/\n' % fn_key(block)))
